@@ -16,25 +16,20 @@ import YaegiVerif.Spec.GoTyping
 namespace YaegiVerif.Typecheck
 open Spec
 
-/-- classes of check sites on which the interpreter (as repaired up to 79ed061) and the Go specification still differ.
-    The classes of the repaired findings F12-3, F12-7, F12-8, F12-9, F12-10, F12-12 and of the repaired parts of F12-11
-    (logical operands, send, nil / true / false as values, constants in returns / comparisons / indexes, zero divisors,
-    non-indexable operands, calls without result, float division by zero, receive retyping) are gone: a site of one of
-    those forms that differs is labelled `other` and is a violation -/
+/-- classes of check sites on which the interpreter (HEAD 61b9210, after the fifth round of repairs) and the Go
+    specification still differ. The classes of every repaired finding are gone (round 3: logical operands, send, nil /
+    true / false as values, constants in returns / comparisons / indexes, zero divisors, non-indexable operands, calls
+    without result, float division by zero, receive retyping; round 5: channel-direction comparison F12-11, nil operands
+    and `true << x` F12-17, typed shift counts and zero-length arrays F12-18, calls in conversions F12-21, typed constants
+    to complex F12-23): a site of one of those forms that differs is labelled `other` and is a violation -/
 inductive Lax where
   | sameReflectType                 -- F12-5: distinct Go types with the same reflect.Type (defined type vs underlying, struct S0 vs S1, []N vs []int, …)
   | interfaceToConcrete             -- F12-6: an interface value used where a concrete type with (at least) its methods is required (itype.equals)
   | interfaceOperand                -- F12-6: an interface operand "equals" any type with its methods: arithmetic / comparison accepted
-  | destinationTypePropagated       -- F12-4: an operator node takes the type of the enclosing declaration / assignment / return: the assignment check is bypassed
-  | channelDirectionComparison      -- F12-11 (open part): chan T compared with <-chan T / chan<- T rejected (Go accepts)
-  | untypedOperands                 -- F12-15: two untyped operands, an untyped shifted operand: outside what the fragment describes
-  | typedConstantOperand            -- F12-18: the value of a typed constant shift count is not examined (`a << int(-1)`)
-  | constantIndexZeroLengthArray    -- F12-18: a constant index into an array of length 0 is not checked (`max < 1`)
-  | nilOperand                      -- F12-17: nil as the operand of a conversion, a type assertion, a condition, `v := nil`, an operator: Go panic
-  | booleanLiteralShifted           -- F12-17: true / false as the shifted operand: Go panic
-  | typedConstantToComplex          -- F12-23: `complex64(int(0))`, a constant conversion Go allows, is rejected (false rejection)
-  | callValueInConversion           -- F12-21: a call without exactly one result as the operand of a conversion (callValue is skipped)
+  | destinationTypePropagated       -- F12-4: an operator node takes the type of the enclosing assignment / return: the assignment check is bypassed
   | comparisonOperandOfLogical      -- F12-19: `(a < b) && c` with c of a defined boolean type has type bool (Go: the defined type)
+  | nilOperand                      -- F12-25: nil where an operand of some type is required and no other operand gives one (`nil == nil`, `nil + nil`, `<-nil`, `nil <- v`, `nil[i]`): Go panic
+  | untypedOperands                 -- not a finding: two untyped operands, an untyped integer constant shifted by a variable — neither side describes them
   | other
   deriving DecidableEq, Repr, Inhabited
 
@@ -43,15 +38,9 @@ def Lax.name : Lax → String
   | .interfaceToConcrete => "interface-to-concrete"
   | .interfaceOperand => "interface-operand"
   | .destinationTypePropagated => "destination-type-propagated"
-  | .channelDirectionComparison => "channel-direction-comparison"
-  | .untypedOperands => "untyped-operands"
-  | .typedConstantOperand => "typed-constant-operand"
-  | .constantIndexZeroLengthArray => "constant-index-zero-length-array"
-  | .nilOperand => "nil-operand"
-  | .booleanLiteralShifted => "boolean-literal-shifted"
-  | .typedConstantToComplex => "typed-constant-to-complex"
-  | .callValueInConversion => "call-value-in-conversion"
   | .comparisonOperandOfLogical => "comparison-operand-of-logical"
+  | .nilOperand => "nil-operand"
+  | .untypedOperands => "untyped-operands"
   | .other => "other"
 
 /-! ### syntactic form of an operand -/
@@ -105,6 +94,7 @@ def classifyAssign (x : Opnd) (t : Ty) : Lax :=
 
 def classifyPair (x y : Opnd) : Lax :=
   match x.sh, y.sh with
+  | .nil, .nil | .nil, .uc _ _ | .uc _ _, .nil | .nil, .bl _ | .bl _, .nil | .nil, .ub | .ub, .nil => .nilOperand
   | .uc _ _, .tv t | .uc _ _, .tc t _ => if t.isIface then .interfaceOperand else .other
   | .tv t, .uc _ _ | .tc t _, .uc _ _ => if t.isIface then .interfaceOperand else .other
   | .bl _, .tv t | .tv t, .bl _ => if t.isIface then .interfaceOperand else .other
@@ -112,7 +102,7 @@ def classifyPair (x y : Opnd) : Lax :=
     if a.isIface || b.isIface then .interfaceOperand
     else if sameReflect a b then .sameReflectType
     else (match a, b with
-      | .chan _ _, .chan _ _ => .channelDirectionComparison
+      | .chan _ _, .chan _ _ => .other
       | _, _ => .other)
   | .ub, _ | _, .ub => .untypedOperands
   | _, _ => .other
@@ -167,37 +157,22 @@ def classifyBin (op : BinOp) (z : Option Ty) (x y : Opnd) : Lax :=
 def classifyShift (x y : Opnd) : Lax :=
   match x.sh, y.sh with
   | .uc _ _, _ => .untypedOperands
-  | .bl _, _ => .booleanLiteralShifted
-  | _, .tc _ _ => .typedConstantOperand
   | _, _ => .other
 
 def classifyIndex (a i : Opnd) : Lax :=
   match a.ty with
   | .map k _ => classifyAssign i (.s k)
-  | .array 0 _ =>
-    (match i.sh with
-     | .uc _ _ | .tc _ _ => .constantIndexZeroLengthArray
-     | _ => .other)
-  | _ => .other
-
-/-- since the repair of F11 (the if/for cases leave after recording the error) the only condition on which the
-    two sides differ is `nil` (`cond_correct`); any other difference belongs to no listed class -/
-def classifyCond (c : Opnd) : Lax :=
-  match c.sh with
   | .nil => .nilOperand
   | _ => .other
 
-/-- `assert_agree`: the only operand on which the two sides differ is `nil` -/
-def classifyAssert (x : Opnd) : Lax :=
-  match x.sh with
-  | .nil => .nilOperand
-  | _ => .other
+/-- conditions: the two sides agree on every operand (`cond_correct`, F11 and F12-17 repaired): no listed class -/
+def classifyCond (_c : Opnd) : Lax := .other
+
+/-- type assertions: the two sides agree on every operand (`assert_correct`): no listed class -/
+def classifyAssert (_x : Opnd) : Lax := .other
 
 def classifyConv (t : Ty) (x : Opnd) : Lax :=
   match x.sh with
-  | .nil => .nilOperand
-  | .tc v _ =>
-    if kindIsG Kind.isComplex t && kindIsG (fun k => k.isInteger || k.isFloat) v then .typedConstantToComplex else .other
   | .tv v => if v.isIface && !t.isIface then .interfaceToConcrete else .sameReflectType
   | _ => .other
 
@@ -238,6 +213,7 @@ def classifyAssignStmt (sh : Shape) (t : Ty) (x : Opnd) : Lax :=
 def classifySend (c v : Opnd) : Lax :=
   match c.ty with
   | .chan _ t => classifyAssign v (.s t)
+  | .nil => .nilOperand
   | _ => .other
 
 def classifyOpAssign (op : BinOp) (t : Ty) (x : Opnd) : Lax :=
@@ -256,7 +232,7 @@ mutual
       site (unY T op x) (unG op x) .other
     | .recv e => do
       let x ← domE T env none false e
-      site (recvY T x) (recvG x) .other
+      site (recvY T x) (recvG x) (if x.ty.isNil then .nilOperand else .other)
     | .bin op a b => do
       let zc := if op.propagates then z else none
       let x ← domE T env zc false a
@@ -275,7 +251,7 @@ mutual
       | some sg => do
         let xs ← domArgs T env args
         let _ ← site (callY T sg.params (xs.map (·.2))) (callG sg.params (xs.map (·.2))) (classifyArgs T sg.params (xs.map (·.2)))
-        site (callValueY T cv sg.rets) (callValueG cv sg.rets) (if cv then .callValueInConversion else .other)
+        site (callValueY T cv sg.rets) (callValueG cv sg.rets) .other
     | .conv t e => do
       let x ← domE T env none true e
       site (convY T t x) (convG t x) (classifyConv t x)
@@ -303,7 +279,7 @@ mutual
     | .declz t => .ok (env.vars ++ [t])
     | .define e => do
       let x ← domE T env none false e
-      let t ← site (defineY T x) (defineG x) (if x.ty.isNil then .nilOperand else classifyAssign x (defaultTypeY x.ty))
+      let t ← site (defineY T x) (defineG x) (classifyAssign x (defaultTypeY x.ty))
       .ok (env.vars ++ [t])
     | .defineOk t e => do
       let x ← domE T env none false e
